@@ -294,6 +294,8 @@ def align_outcomes(tree, out_tree):
 def gen_literal(rng, depth):
     if depth <= 0 or rng.random() < 0.25:
         return rng.choice(POOL[rng.choice(KINDS)])
+    if rng.random() < 0.15:
+        return '(%s%s)' % (rng.choice(['+', '-', '~', 'not ', '+', '-']), gen_literal(rng, depth - 1))
     op = rng.choice(list(OPS))
     l, r = gen_literal(rng, depth - 1), gen_literal(rng, depth - 1)
     if op == 'Pow':
@@ -418,11 +420,16 @@ def multi_statement_programs(rng, n_random):
 def length_boundary_programs():
     """literal expressions whose value prints one character longer than / as long as / one character shorter than the
     expression, as an operand (either side) of every binary operator next to a name: whether parentheses are needed there
-    differs by operator, and the "not longer" rule must use the text that is really printed"""
+    differs by operator, and the "not longer" rule must use the text that is really printed; and unary operators applied
+    to literals of every type (a unary plus is not the identity on bools, a `not` is not arithmetic)"""
+    out = []
+    for u in ('+', '-', '~', 'not '):
+        for operand in ('True', 'False', 'None', '1', '0', '2.5', '3j', '(1+2)', '(True|False)'):
+            for ctx_ in ('x = {U}{O}', 'x = {U}{O} | False', 'x = True & {U}{O}', 'x = ({U}{O}) + 1', 'x = [{U}{O}, {U}{U}{O}]', 'x = 2 * {U}{O} * 3'):
+                out.append(ctx_.replace('{U}', u).replace('{O}', operand))
     cands = ['1<<17', '1<<18', '3<<16', '255<<16', '7<<15', '1<<13', '1<<14', '1<<16', '10*10', '9*9', '99+1', '5-10', '1-2', '0-1', '2*5', '4//1',
              '7%8', '1|2', '6&3', '5^1', '100*100', '1000*1000', '12*12*12', '2.5*2', '1.5+1.5', '10-10.0', '1j*1j', '8>>1', '1<<10', '1<<9']
     ops = ['+', '-', '*', '/', '//', '%', '**', '<<', '>>', '&', '|', '^', '@']
-    out = []
     for e in cands:
         for op in ops:
             out.append('x = some_name %s %s' % (op, e))
